@@ -19,7 +19,10 @@ class C17(Check):
             "every interval shape (normal, wrapping, empty) x hash position (below, equal owner, inside, equal next, "
             "above) x inside/outside the zone incl. root zone, lower-case owner/next text, unsupported algorithm and bad "
             "salt, ValidityPeriod triples around both boundaries and around 2^31/2^32, generated Ed25519/ECDSA/RSA keys "
-            "exported to BIND text, re-read, compared field by field and cross signed/verified. Model cases: the same "
+            "exported to BIND text, re-read, compared field by field and cross signed/verified; the same calls (HashName, "
+            "Match/Cover, KeyTag, ToDS, ValidityPeriod, Verify, key text) made from 16-24 goroutines at once behind a start "
+            "barrier, with inputs of very different cost, every single result compared with the RFC value computed "
+            "beforehand. Model cases: the same "
             "inputs evaluated by the Coq model (with SHA-1/SHA-256 executed inside Coq) and compared with the "
             "implementation's outputs; key decoders and the key-file lexer through hooks. A case is non-trivial when "
             "its output is not the rejection value; distinct by hash of (function, arguments, output).")
